@@ -305,3 +305,119 @@ func writersWith(f *ssa.Function, mask origin, ret func(g *ssa.Function) origin)
 	sort.Strings(out)
 	return out
 }
+
+// apiArgWrites: does the exported function root, directly or through same-package helpers, write into
+// memory its caller can still see? Three ways are recognised:
+//   - a store / map update in root through memory of param origin;
+//   - the same in a helper that some call site in the family hands caller-reachable memory to
+//     (an address into a slice of a by-value argument still points into the caller's backing array);
+//   - append(x[:0], ...) (or append(x[:k], ...)) where x is of param origin: the elements are written
+//     into the caller's backing array.
+// Returns one description per site.
+func apiArgWrites(root *ssa.Function) []string {
+	fam := family(root)
+	ro := returnOrigins(fam)
+	ret := func(g *ssa.Function) origin { return ro[g] }
+	var out []string
+	// which helpers receive caller-reachable memory
+	receives := map[*ssa.Function]bool{root: true}
+	for changed := true; changed; {
+		changed = false
+		for _, f := range fam {
+			if !receives[f] {
+				continue
+			}
+			oa := newOriginAnalysis(f, ret)
+			eachInstr(f, func(i ssa.Instruction) {
+				ci, ok := i.(ssa.CallInstruction)
+				if !ok {
+					return
+				}
+				g := ci.Common().StaticCallee()
+				if g == nil || receives[g] || pkgOf(g) != pkgOf(root) || g.Blocks == nil {
+					return
+				}
+				for _, a := range callArgs(ci) {
+					if hasRefs(a.Type()) && oa.of(a)&(oParam|oUnknown) != 0 {
+						receives[g] = true
+						changed = true
+					}
+				}
+			})
+		}
+		// the address of an ELEMENT of a slice that came in through a parameter is caller-visible whoever
+		// holds the slice header: a by-value struct argument is a shallow copy
+		for _, f := range fam {
+			oa := newOriginAnalysis(f, ret)
+			eachInstr(f, func(i ssa.Instruction) {
+				ci, ok := i.(ssa.CallInstruction)
+				if !ok {
+					return
+				}
+				g := ci.Common().StaticCallee()
+				if g == nil || receives[g] || pkgOf(g) != pkgOf(root) || g.Blocks == nil {
+					return
+				}
+				for _, a := range callArgs(ci) {
+					if ia, ok := unwrap(a).(*ssa.IndexAddr); ok {
+						if _, isSlice := ia.X.Type().Underlying().(*types.Slice); isSlice && oa.of(ia.X)&(oParam|oUnknown) != 0 {
+							receives[g] = true
+							changed = true
+						}
+					}
+				}
+			})
+		}
+	}
+	for _, f := range fam {
+		if !receives[f] {
+			continue
+		}
+		for _, w := range writersWith(f, oParam, ret) {
+			out = append(out, fname(f)+": "+w)
+		}
+		oa := newOriginAnalysis(f, ret)
+		eachInstr(f, func(i ssa.Instruction) {
+			cl, ok := i.(*ssa.Call)
+			if !ok || calleeName(cl) != "builtin:append" {
+				return
+			}
+			// the slice appended to: through the web of phis and earlier appends back to a truncated re-slice
+			var sl *ssa.Slice
+			seen := map[ssa.Value]bool{}
+			var find func(v ssa.Value)
+			find = func(v ssa.Value) {
+				if seen[v] || sl != nil {
+					return
+				}
+				seen[v] = true
+				switch x := v.(type) {
+				case *ssa.Slice:
+					if x.High != nil {
+						sl = x
+					}
+				case *ssa.Phi:
+					for _, e := range x.Edges {
+						find(e)
+					}
+				case *ssa.Call:
+					if calleeName(x) == "builtin:append" {
+						find(x.Call.Args[0])
+					}
+				}
+			}
+			find(cl.Call.Args[0])
+			if sl == nil {
+				return
+			}
+			if _, isPtr := sl.X.Type().Underlying().(*types.Pointer); isPtr {
+				return // slicing a local array
+			}
+			if oa.of(sl.X)&oParam != 0 {
+				out = append(out, fmt.Sprintf("%s: append at %s onto a truncated re-slice of a slice the caller still holds: the appended elements overwrite the caller's", fname(f), f.Prog.Fset.Position(cl.Pos())))
+			}
+		})
+	}
+	sort.Strings(out)
+	return dedupe(out)
+}
